@@ -311,7 +311,7 @@ func runC19(c *Ctx, r *Report) {
 
 func init() {
 	register("C19", &propDef{
-		explain: "Who-may-write and dominance rules for bindings: only five functions of package object write Environment.store, create/update are reachable only through SetNoChecks, SetNoChecks only through CreateOrSet or with a fixed lower-case name; CreateOrSet returns an Error for a constant bound to a different value on a path that cannot reach SetNoChecks, and every path to SetNoChecks tests Constant(name); registers are bound to names only under !Constant(name); in-place writes to looked-up bindings before the check are reported (shared rule with C06, known finding for large containers). Decides every syntactic route to a binding at once. CreateOrSet is checked as a path rule: SetNoChecks is reached only for a name that is not a constant or not bound yet (a bound constant is never written again, whatever Equals says); object.Constant is evaluated on every ASCII character and position; shares C05.R3 (no live register in a binding).",
+		explain: "Who-may-write and dominance rules for bindings: only five functions of package object write Environment.store, create/update are reachable only through SetNoChecks, SetNoChecks only through CreateOrSet or with a fixed lower-case name; CreateOrSet returns an Error for a constant bound to a different value on a path that cannot reach SetNoChecks, and every path to SetNoChecks tests Constant(name); registers are bound to names only under !Constant(name); in-place writes to looked-up bindings before the check are reported (shared rule with C06, known finding for large containers). Decides every syntactic route to a binding at once. CreateOrSet is checked as a path rule: SetNoChecks is reached only for a name that is not a constant or not bound yet (a bound constant is never written again, whatever Equals says); object.Constant is evaluated on every ASCII character and position; shares C05.R3 (no live register in a binding). object.Constant is interpreted on every ASCII name of length 1 and 2 and on representative names of length 3 and 4.",
 		assume:  []string{"object.Constant implements the documented all-upper-case definition (its body is not re-verified beyond being the function tested)", "deleting a constant with del() is allowed by the property"},
 		run:     runC19,
 	})
